@@ -6,10 +6,26 @@ var realAll = []string{"every package of /repo (scratch copy, mechanically instr
 
 func init() {
 	register(&propCfg{
+		id: "C15", worker: "c15", goCmd: "go",
+		instrument: []string{"-maps", "-clock", "-tick"},
+		tiers: map[string]tierCfg{
+			"quick":    {cases: 60_000, timeout: 15 * time.Minute},
+			"thorough": {cases: 6_000_000, timeout: 90 * time.Minute},
+		},
+		level: "exploration",
+		rule: "case = one tape. 10/18: a script list with 1..20 language systems (tags with and without -x- extension), 1..8 features incl. out-of-range indices, a language from a pool of matching, partially matching and unrelated tags and a feature-switch map (nil, defaults, random): FindLookups under five map-order assignments (first = last: plain repetition), plus ascending / in-range / equals-some-language-system. 6/18: a generated font with generated GSUB/GPOS/GDEF: NewLayouter + Layout of three strings (mapped and unmapped characters) and the first string again on the same Layouter, under four map orders. 1/18 each: a font file carrying only a kern table (every listed pair and six other pairs), a proportional font without GSUB mapping U+FB00..FB04. Non-trivial = all but the few kern/ligature cases whose font is too small; distinct = distinct hash of the generated configuration.",
+		real:  realAll,
+		stubs: []string{"map iteration order at every repository site", "call history on one Layouter", "io.Writer/ReaderAt (fault-free) for the kern and ligature files"},
+		assume: []string{
+			"which language system FindLookups should prefer is not judged: only that the answer is the lookup set of one of them and the same on every call",
+			"a panic or step-budget overrun inside Layout ends the case and is left to C07",
+		},
+	})
+	register(&propCfg{
 		id: "C20", worker: "c20", goCmd: "go",
 		instrument: []string{"-maps", "-clock", "-tick"},
 		tiers: map[string]tierCfg{
-			"quick":    {cases: 120_000, timeout: 15 * time.Minute},
+			"quick":    {cases: 60_000, timeout: 15 * time.Minute},
 			"thorough": {cases: 12_000_000, timeout: 90 * time.Minute},
 		},
 		level: "exploration",
